@@ -45,7 +45,7 @@ CUR = None  # the BacktestRun currently executing in this process
 
 def _dispatch(hook, *args):
     run = CUR
-    if run is None:
+    if run is None or getattr(run, "aborting", False):
         return
     for fn in run.hooks.get(hook, ()):
         try:
@@ -326,6 +326,7 @@ def make_agent_class():
             self.seen = set()
             self.log = []  # (market, pt, kind, action ordinal, outcome)
             self.calls = []  # (kind, market_id, pt_ms)
+            self._done = set()
 
         # -- callbacks
         def check_market_book(self, market, market_book):
@@ -370,8 +371,12 @@ def make_agent_class():
         def _perform(self, market, key):
             run = self.run
             upd = run.cur_update.get(market.market_id)
-            if upd is None:
+            if upd is None or self.spec.get("silent"):
                 return
+            dk = (market.market_id, upd["pt"], key)
+            if dk in self._done:
+                return  # live mode: process_orders is called on every order-stream event
+            self._done.add(dk)
             acts = (upd.get(key) or {}).get(self.name)
             if not acts:
                 return
